@@ -487,6 +487,10 @@ static int apply(struct vthread *t, int spurious, int inl)
         o->ret = 0;
         return 1;
     }
+    case OP_MEM:
+        if (!q) { evhdr(t, inl); fprintf(stdout, "mem %s tc\n", o->a ? "w" : "r"); }
+        o->ret = 0;
+        return 1;
     case OP_SIGMASK:
         if (!q) { evhdr(t, inl); fprintf(stdout, "sigmask %ld\n", o->a); }
         o->ret = 0;
@@ -838,6 +842,13 @@ struct op *sched_do(struct op o)
     return &me->pend;
 }
 
+void sched_mem(struct op o)
+{
+    /* only memory accesses made by pdsh code of the running pdsh thread count, and only when the case asks for them */
+    if (!self || !(yield_mask & Y_MEM) || !self->alive) return;
+    sched_do(o);
+}
+
 static void *tramp(void *p)
 {
     struct vthread *me = p;
@@ -1024,6 +1035,7 @@ static int yield_of(const char *s)
     if (strstr(s, "io")) m |= Y_IO;
     if (strstr(s, "sig")) m |= Y_SIG;
     if (strstr(s, "sleep")) m |= Y_SLEEP;
+    if (strstr(s, "mem")) m |= Y_MEM;
     if (strstr(s, "all")) m |= Y_FAN | Y_THD | Y_TIME | Y_IO | Y_SIG | Y_SLEEP;
     return m;
 }
